@@ -127,6 +127,13 @@ pub(super) fn compile_with_plan(input: Plan, with: &crate::ast::WithClause) -> R
         }
     }
 
+    // DISTINCT applies to the projected rows, before ORDER BY / SKIP / LIMIT select a window of them.
+    if with.distinct {
+        plan = Plan::Distinct {
+            input: Box::new(plan),
+        };
+    }
+
     if let Some(order_by) = &with.order_by {
         let rewrite_bindings: Vec<(Expression, String)> = with
             .items
@@ -210,12 +217,6 @@ pub(super) fn compile_with_plan(input: Plan, with: &crate::ast::WithClause) -> R
         };
     }
 
-    if with.distinct {
-        plan = Plan::Distinct {
-            input: Box::new(plan),
-        };
-    }
-
     Ok(plan)
 }
 
@@ -231,6 +232,13 @@ pub(super) fn compile_return_plan(
     extract_output_var_kinds(&input, &mut input_bindings);
 
     let (mut plan, project_cols) = compile_projection_aggregation(input, &ret.items, false)?;
+
+    // DISTINCT applies to the projected rows, before ORDER BY / SKIP / LIMIT select a window of them.
+    if ret.distinct {
+        plan = Plan::Distinct {
+            input: Box::new(plan),
+        };
+    }
 
     if let Some(order_by) = &ret.order_by {
         let rewrite_bindings: Vec<(Expression, String)> = ret
@@ -312,12 +320,6 @@ pub(super) fn compile_return_plan(
         plan = Plan::Limit {
             input: Box::new(plan),
             limit: limit.clone(),
-        };
-    }
-
-    if ret.distinct {
-        plan = Plan::Distinct {
-            input: Box::new(plan),
         };
     }
 
